@@ -710,17 +710,30 @@ class BptkServer(Flask):
 
         instance = self._instance_manager.get_instance(instance_uuid)
 
-        instance.begin_session(
-            scenario_managers=scenario_managers,
-            scenarios=scenarios,
-            settings=settings,
-            equations=equations,
-            agents=agents,
-            agent_states=agent_states,
-            agent_properties=agent_properties,
-            agent_property_types=agent_property_types,
-            individual_agent_properties=individual_agent_properties
-        )
+        # a session that a stepping request is working on is not replaced underneath it: the new session would start
+        # unlocked and admit further stepping requests while the first one is still running
+        if not instance.try_lock():
+            resp = make_response('{"error": "instace is locked"}', 500)
+            resp.headers['Content-Type'] = 'application/json'
+            resp.headers['Access-Control-Allow-Origin'] = '*'
+            return resp
+
+        try:
+            instance.begin_session(
+                scenario_managers=scenario_managers,
+                scenarios=scenarios,
+                settings=settings,
+                equations=equations,
+                agents=agents,
+                agent_states=agent_states,
+                agent_properties=agent_properties,
+                agent_property_types=agent_property_types,
+                individual_agent_properties=individual_agent_properties
+            )
+        except BaseException:
+            instance.unlock()
+            raise
+        # (the session that was begun starts unlocked)
 
         # a session begun on an instance is externalised right away: otherwise a restart before its first step
         # brings back whatever session the instance's state file held before
@@ -744,7 +757,19 @@ class BptkServer(Flask):
             return resp
 
         instance = self._instance_manager.get_instance(instance_uuid)
-        instance.end_session()
+
+        # a session that a stepping request is working on is not ended underneath it
+        if not instance.try_lock():
+            resp = make_response('{"error": "instace is locked"}', 500)
+            resp.headers['Content-Type'] = 'application/json'
+            resp.headers['Access-Control-Allow-Origin'] = '*'
+            return resp
+
+        try:
+            instance.end_session()
+        except BaseException:
+            instance.unlock()
+            raise
 
         resp = make_response('{"msg":"session terminated"}', 200)
         resp.headers['Content-Type'] = 'application/json'
